@@ -117,7 +117,7 @@ func (c rendererContext) Get(name string) any {
 func (c rendererContext) ExpandTagArg() (string, error) {
 	args := c.TagArgs()
 	if strings.Contains(args, "{{") {
-		root, err := c.ctx.config.Compile(args, c.node.SourceLoc)
+		root, err := c.ctx.config.Compile(args, c.sourceLoc())
 		if err != nil {
 			return "", err
 		}
@@ -156,7 +156,7 @@ func (c rendererContext) RenderFile(filename string, b map[string]any) (string, 
 	} else if err != nil {
 		return "", err
 	}
-	root, err := c.ctx.config.Compile(string(source), c.node.SourceLoc)
+	root, err := c.ctx.config.Compile(string(source), c.sourceLoc())
 	if err != nil {
 		return "", err
 	}
@@ -186,6 +186,18 @@ func (c rendererContext) InnerString() (string, error) {
 // Set sets a variable value from an evaluation context.
 func (c rendererContext) Set(name string, value any) {
 	c.ctx.bindings[name] = value
+}
+
+// sourceLoc is the location of the current tag or block.
+func (c rendererContext) sourceLoc() parser.SourceLoc {
+	switch {
+	case c.node != nil:
+		return c.node.SourceLoc
+	case c.cn != nil:
+		return c.cn.SourceLoc
+	default:
+		return parser.SourceLoc{}
+	}
 }
 
 func (c rendererContext) SourceFile() string {
